@@ -93,23 +93,21 @@ def replay_levinson(chk, st, cplx):
 
 def part_levinson(chk, cplx, order, r0set, parts, simulate=None):
     mode = 'complex' if cplx else 'real'
-    res = chk.tlc('MC_Levinson', levinson_cfg(order, r0set, parts, cplx), part='levinson-' + mode)
-    try:
-        for st in res.states():
-            replay_levinson(chk, st, cplx)
-    finally:
-        tlc.cleanup(res.workdir)
-    p = chk.part('levinson-' + mode)
-    if not p.get('status-pd') or not p.get('status-indefinite'):
-        raise core.MachineryError('vacuous Levinson exploration: %r' % p)
+    def after(res):
+        p = chk.part('levinson-' + mode)
+        if not p.get('status-pd') or not p.get('status-indefinite'):
+            raise core.MachineryError('vacuous Levinson exploration: %r' % p)
+    return {'module': 'MC_Levinson', 'cfg': levinson_cfg(order, r0set, parts, cplx), 'part': 'levinson-' + mode,
+            'replay': lambda st: replay_levinson(chk, st, cplx), 'after': after}
 
 
 def run(chk):
     from . import C10_toeplitz, C10_obs
     quick = chk.tier == 'quick'
-    part_levinson(chk, False, 4, [1, 2, 3], 'PartsQ' if quick else 'PartsT', None)
-    part_levinson(chk, True, 3 if quick else 3, [1, 2] if quick else [1, 2, 3], 'PartsC' if quick else 'PartsCT')
-    C10_toeplitz.run(chk)
+    js = [part_levinson(chk, False, 4, [1, 2, 3], 'PartsQ' if quick else 'PartsT', None),
+          part_levinson(chk, True, 3, [1, 2] if quick else [1, 2, 3], 'PartsC' if quick else 'PartsCT')]
+    js += C10_toeplitz.jobs(chk)
+    core.run_jobs(chk, js)
     C10_obs.run(chk)
 
 
